@@ -95,6 +95,9 @@ def write(ctx, g, case):
     except MonitorViolation as v:
         ctx.violation(v.monitor, v.witness, case, v.prop)
         return None
+    except Exception as e:  # the writer raised on an in-domain graph
+        ctx.violation("driver:library-exception", {"what": f"graph_to_molfile raised {type(e).__name__} on an in-domain graph", "message": str(e)[:300]}, case)
+        return None
     if any(len(l) == 79 and l.endswith("-") for l in text.split("\n")):
         ctx.nontrivial(text.split("\n", 4)[4])
     if g.number_of_edges() == 0:
